@@ -91,15 +91,14 @@ class Scen(CompScenario):
         self.premise(0 <= a_cnt <= ma and 0 <= f_cnt <= mf, "count argument outside range(max+1)")
         a_done, f_done, c_done = obs["alloc.done"], obs["free.done"], obs["clear.done"]
 
-        # the allocated count (and the ring pointers) are tracked exactly
+        # the allocated count is tracked exactly; the statement does not mention the pointer signals (ring order
+        # is judged on the identifiers alloc / free return) -- a deviating pointer is only counted
         self.expect(obs["sig.allocated"] == cnt, "allocated-mismatch",
                     f"allocated signal {obs['sig.allocated']} but model has {cnt}/{n} allocated", port="allocated")
-        self.expect(obs["sig.end_idx"] == end, "pointer-mismatch",
-                    f"end_idx {obs['sig.end_idx']}, model: next identifier to hand out is {end} (n={n})", port="end_idx")
-        if cnt > 0:
-            self.expect(obs["sig.start_idx"] == start, "pointer-mismatch",
-                        f"start_idx {obs['sig.start_idx']}, model: oldest allocated identifier is {start} (n={n})",
-                        port="start_idx")
+        if obs["sig.end_idx"] != end:
+            self.hit("end_idx_differs_from_model")
+        if cnt > 0 and obs["sig.start_idx"] != start:
+            self.hit("start_idx_differs_from_model")
 
         # calls that would overflow / underflow are never accepted; calls that fit are accepted
         a_fits, f_fits = a_cnt <= space, f_cnt <= cnt
@@ -108,20 +107,30 @@ class Scen(CompScenario):
         self.expect(not a_done or a_en, "ran-when-not-requested", "alloc done without request", port="alloc")
         self.expect(not f_done or f_en, "ran-when-not-requested", "free done without request", port="free")
         self.expect(not c_done or c_en, "ran-when-not-requested", "clear done without request", port="clear")
+        # "would overflow": judged when the call does not fit even counting what a free (alloc) executed in the
+        # same cycle gives back (takes); a call that fits only thanks to the other call of the cycle is counted
         if a_en and not a_fits:
-            self.expect(not obs["alloc.runnable"] and not a_done, "overflow-accepted",
-                        f"alloc(count={a_cnt}) accepted with {cnt}/{n} allocated", port="alloc")
+            if a_cnt > space + (f_cnt if f_done else 0):
+                self.expect(not obs["alloc.runnable"] and not a_done, "overflow-accepted",
+                            f"alloc(count={a_cnt}) accepted with {cnt}/{n} allocated"
+                            + (f" and free(count={f_cnt}) executed" if f_done else ""), port="alloc")
+            elif obs["alloc.runnable"] or a_done:
+                self.hit("alloc_accepted_fitting_only_with_same_cycle_free")
         if f_en and not f_fits:
-            self.expect(not obs["free.runnable"] and not f_done, "underflow-accepted",
-                        f"free(count={f_cnt}) accepted with {cnt}/{n} allocated", port="free")
-        if a_en and a_ok:
-            self.expect(obs["alloc.runnable"] == 1, "ready-mismatch",
-                        f"alloc(count={a_cnt}) not callable with {cnt}/{n} allocated", port="alloc")
-        if f_en and f_ok:
-            self.expect(obs["free.runnable"] == 1, "ready-mismatch",
-                        f"free(count={f_cnt}) not callable with {cnt}/{n} allocated", port="free")
-        if c_en:
-            self.expect(obs["clear.runnable"] == 1, "ready-mismatch", "clear not callable", port="clear")
+            if f_cnt > cnt + (a_cnt if a_done else 0):
+                self.expect(not obs["free.runnable"] and not f_done, "underflow-accepted",
+                            f"free(count={f_cnt}) accepted with {cnt}/{n} allocated"
+                            + (f" and alloc(count={a_cnt}) executed" if a_done else ""), port="free")
+            elif obs["free.runnable"] or f_done:
+                self.hit("free_accepted_fitting_only_with_same_cycle_alloc")
+        # the statement only forbids accepting calls that would overflow / underflow; a fitting call that is
+        # refused is counted, not judged
+        if a_en and a_ok and not obs["alloc.runnable"]:
+            self.hit("fitting_alloc_refused")
+        if f_en and f_ok and not obs["free.runnable"]:
+            self.hit("fitting_free_refused")
+        if c_en and not obs["clear.runnable"]:
+            self.hit("clear_refused")
         for p, en, ok, done in (("alloc", a_en, a_ok, a_done), ("free", f_en, f_ok, f_done), ("clear", c_en, True, c_done)):
             if en and ok and not done:
                 self.hit("blocked_though_ready")
@@ -209,6 +218,10 @@ class Prop(PropBase):
             "validate_arguments in TransactionManager", "transactron.lib.adapters.AdapterTrans",
             "TransactionManager + scheduler", "amaranth pysim"]
     stubs = ["cycle driver (stimulus)", "ring reference model (start, end, count)"]
+    assumptions = ["alloc / free return identifiers relative to the ring state at the beginning of the cycle; of the calls executed "
+                   "in one cycle clear is applied last",
+                   "'would overflow / underflow' is judged for calls that do not fit even counting a free / alloc executed in "
+                   "the same cycle; the start_idx / end_idx signals are not judged (ring order is judged on returned identifiers)"]
     search_space = ("CircularAllocator configurations (entries incl. 1 and non-powers of two, max_alloc, max_free) and "
                     "alloc/free/clear call histories with counts at, below and one above the space left")
 
